@@ -343,7 +343,7 @@ func execC19(c C19Case, bound time.Duration) (facts map[string]bool, err error) 
 		shutdown()
 		// the old call's accept loop has been told to stop; once it has let go of the listener (it does so before
 		// it waits for its connections) the object may be bound again - not earlier
-		for dl := time.Now().Add(time.Second * WatchdogScale()); time.Now().Before(dl); {
+		for dl := time.Now().Add(bound / 2); time.Now().Before(dl); {
 			if l, _ := svc.GetListener(); l == nil {
 				break
 			}
